@@ -4,8 +4,6 @@ import (
 	"fmt"
 	"go/ast"
 	"go/constant"
-	"go/token"
-	"go/types"
 	"math"
 	"sort"
 	"strings"
@@ -85,11 +83,13 @@ type registration struct {
 	name      string
 	module    bool
 	pos       string
+	bind      aenv   // constants captured from a closure factory (scalar activations only)
+	why       string // why fn could not be resolved
 }
 
 // C18 — activation functions.
 func C18(p *Prog, r *Run) {
-	r.Explanation = "Decided: (1) registry: every NodeActivationType constant is registered exactly once, scalar types with Register, module types with RegisterModule, names pairwise distinct, Register/RegisterModule fill the function map and both name maps consistently, and the miss path of all four lookups returns a non-nil error; (2) for the closure registered under each scalar constant, by abstract interpretation (interval x monotonicity x may-NaN, input domain [-1e300,1e300] split at the constants the closure tests): the result lies in the documented range, is finite and never NaN, and is monotonically non-decreasing for the sigmoid family, tanh, linear, clipped-linear and step, including left/right values at every breakpoint; a construct outside the transfer-function table makes the obligation undecided (fails); (3) module folds: multiply starts from 1 and multiplies every input, max/min fold every input with math.Max/Min starting from an identity of the whole domain (±Inf, ±MaxFloat64 or the first element). Not decided: agreement with the closed-form definition beyond range and monotonicity (a changed slope constant that keeps both is invisible)."
+	r.Explanation = "Decided: (1) registry: every NodeActivationType constant is registered exactly once, scalar types with Register, module types with RegisterModule, names pairwise distinct, Register/RegisterModule fill the function map and both name maps consistently, and the miss path of all four lookups returns a non-nil error; (2) for the closure registered under each scalar constant, by abstract interpretation (interval x monotonicity x may-NaN, input domain [-1e300,1e300] split at the constants the closure tests): the result lies in the documented range, is finite and never NaN, and is monotonically non-decreasing for the sigmoid family, tanh, linear, clipped-linear and step, including left/right values at every breakpoint; a construct outside the transfer-function table makes the obligation undecided (fails); (3) module folds: multiply starts from 1 and multiplies every input, max/min fold every input with math.Max/Min starting from an identity of the whole domain (±Inf, ±MaxFloat64 or the first element). (4) closed form: every piece of every scalar closure has the algebraic normal form of its documented definition; (5) network.ActivateNode and ActivateModule touch the node(s) with the looked-up value only under err == nil of that lookup and hand the error on. The interpreter follows if/else chains, tagless switches, early returns and (re-)assigned locals of the closure flow-sensitively; a closure produced by a one-line factory with constant arguments is interpreted with the captured constants."
 	factory := p.Func(PkgM, "NewNodeActivatorsFactory")
 	regF := p.Func(PkgM, "NodeActivatorsFactory.Register")
 	regM := p.Func(PkgM, "NodeActivatorsFactory.RegisterModule")
@@ -109,18 +109,8 @@ func C18(p *Prog, r *Run) {
 				reg.constVal = k.Value.ExactString()
 				reg.constName = byVal[reg.constVal]
 			}
-			// function value: load of a package-level variable holding a closure
-			fv := args[2]
-			if ct, ok := fv.(*ssa.ChangeType); ok {
-				fv = ct.X
-			}
-			if u, ok := fv.(*ssa.UnOp); ok {
-				if g, ok := u.X.(*ssa.Global); ok {
-					reg.fn = p.GlobalFuncLit(PkgM, g.Name())
-				}
-			} else if f, ok := fv.(*ssa.Function); ok {
-				reg.fn = f
-			}
+			// function value: load of a package-level variable holding a closure (robust_c18.go)
+			reg.fn, reg.bind, reg.why = resolveActivation(p, args[2], module)
 			if k, ok := args[3].(*ssa.Const); ok && k.Value != nil && k.Value.Kind() == constant.String {
 				reg.name = constant.StringVal(k.Value)
 			}
@@ -134,7 +124,11 @@ func C18(p *Prog, r *Run) {
 		seenC, seenN := map[string]int{}, map[string]int{}
 		for _, g := range regs {
 			if g.constName == "" || g.fn == nil || g.name == "" {
-				r.Undecided("registration", g.pos, "a registration whose type, function or name is not a constant/global closure")
+				why := ""
+				if g.why != "" {
+					why = ": " + g.why
+				}
+				r.Undecided("registration", g.pos, "a registration whose type, function or name is not a constant/global closure"+why)
 				continue
 			}
 			seenC[g.constName]++
@@ -226,7 +220,7 @@ func C18(p *Prog, r *Run) {
 			n++
 			r.Fn(g.constName + "=" + g.fn.Name())
 			pos := p.Pos(lit.Pos())
-			res, ai, bad := analyseScalar(pk.TypesInfo, lit)
+			res, ai, bad := analyseScalar(pk.TypesInfo, lit, g.bind)
 			if bad != "" {
 				r.Undecided("range:"+g.constName, pos, "the abstract interpreter cannot decide this closure: "+bad)
 				continue
@@ -314,38 +308,12 @@ func C18(p *Prog, r *Run) {
 				continue
 			}
 			pos := p.Pos(lit.Pos())
-			res, ai, bad := analyseScalar(pk.TypesInfo, lit)
+			res, ai, bad := analyseScalar(pk.TypesInfo, lit, g.bind)
 			if bad != "" {
 				r.Undecided("definition:"+g.constName, pos, "the closure's pieces cannot be enumerated: "+bad)
 				continue
 			}
 			n++
-			locals := map[types.Object]ast.Expr{}
-			okLocals := true
-			ast.Inspect(lit.Body, func(nd ast.Node) bool {
-				as, ok := nd.(*ast.AssignStmt)
-				if !ok {
-					return true
-				}
-				for j, l := range as.Lhs {
-					id, ok := l.(*ast.Ident)
-					if !ok || len(as.Lhs) != len(as.Rhs) {
-						okLocals = false
-						continue
-					}
-					obj := pk.TypesInfo.Defs[id]
-					if obj == nil || as.Tok != token.DEFINE {
-						okLocals = false // re-assignment: not a single-assignment local
-						continue
-					}
-					locals[obj] = as.Rhs[j]
-				}
-				return true
-			})
-			if !okLocals {
-				r.Undecided("definition:"+g.constName, pos, "the closure re-assigns a local; the normal form needs single-assignment locals")
-				continue
-			}
 			okD, why := true, ""
 			covered := make([]bool, len(def))
 			for _, x := range res {
@@ -364,7 +332,7 @@ func C18(p *Prog, r *Run) {
 				case x.piece.hi >= 1e299:
 					rep = x.piece.lo + 1
 				}
-				got, err := (&nfBuilder{info: pk.TypesInfo, input: ai.input, locals: locals}).build(x.expr)
+				got, err := (&nfBuilder{info: pk.TypesInfo, input: ai.input, env: x.env}).build(x.expr)
 				if err != nil {
 					okD, why = false, fmt.Sprintf("the result %s on [%g,%g] has no normal form: %v", exprStr(x.expr), x.piece.lo, x.piece.hi, err)
 					break
@@ -505,6 +473,11 @@ func C18(p *Prog, r *Run) {
 			r.Check(retOK, "fold:"+kind+".result", pos, "returns the accumulated value", "the module does not return its accumulator")
 		}
 		r.Floor("module activations", n, 3)
+	})
+
+	r.Rule("C18.5", "error instead of a value at the node level: network.ActivateNode / ActivateModule use the result of the factory lookup only after its error was tested to be nil, and never replace that error by nil", func() {
+		c18ErrorOnly(p, r, p.Func(PkgN, "ActivateNode"), p.Func(PkgM, "NodeActivatorsFactory.ActivateByType"))
+		c18ErrorOnly(p, r, p.Func(PkgN, "ActivateModule"), p.Func(PkgM, "NodeActivatorsFactory.ActivateModuleByType"))
 	})
 }
 
